@@ -11,7 +11,8 @@ STORE_INVS = ["TypeOK", "NeverVersionedFlat", "UniqueVids"]
 
 def store_consts(**kw):
     c = dict(Buckets={"bkt1", "bkt2"}, KeySetName="nest2", Bodies={"x1", "x2"}, OpNames=CORE_OPS,
-             CfgName="plain", MaxVids=0, MaxDepth=0, WithEmpty=False, Ghosts=True)
+             CfgName="plain", MaxVids=0, MaxDepth=0, WithEmpty=False, Ghosts=True,
+             PartNums={1, 2}, PartBodies={"p1", "p2"}, MaxUploads=0, MaxList=2)
     c.update(kw)
     return c
 
@@ -181,4 +182,69 @@ def c13(tier, seed, work):
     return rep
 
 
-PLANS = {"C02": c02, "C05": c05, "C03": c03, "C04": c04, "C13": c13}
+MP_OPS = {"CreateBucket", "Initiate", "UploadPart", "Complete", "Abort", "GetObject", "PutObject", "ListParts", "ListUploads"}
+
+
+def c06(tier, seed, work):
+    rep = Report("C06", tier, seed)
+    thorough = tier == "thorough"
+    st = dict(invariants=["TypeOK"], properties=STORE_PROPS)
+    # one key, two concurrent uploads, parts {1,2} re-uploadable with two bodies, every part
+    # list of <= 2 entries in any order over known and unknown numbers, correct and stale ETags
+    tour_stage(rep, work, "mp-1k-2u", "MC_Store",
+               store_consts(Buckets={"bkt1"}, KeySetName="a", Bodies={"x1"}, OpNames=MP_OPS - {"ListParts", "ListUploads"},
+                            MaxUploads=2, Ghosts=False),
+               ["mem", "bolt", "multimem"], small=True, **st)
+    # versioned destination: completion returns a fresh version id
+    tour_stage(rep, work, "mp-versioned", "MC_Store",
+               store_consts(Buckets={"bkt1"}, KeySetName="a", Bodies={"x1"}, CfgName="mem", MaxVids=2, MaxUploads=1,
+                            PartBodies={"p1"}, Ghosts=False,
+                            OpNames={"CreateBucket", "PutVersioning", "Initiate", "UploadPart", "Complete",
+                                     "GetObject", "GetObjectVersion"}),
+               ["mem"], small=True, **st)
+    if thorough:
+        tour_stage(rep, work, "mp-3parts", "MC_Store",
+                   store_consts(Buckets={"bkt1"}, KeySetName="a", Bodies={"x1"}, PartNums={1, 2, 5}, MaxList=3,
+                                PartBodies={"p1", "p2"}, MaxUploads=1, Ghosts=False,
+                                OpNames=MP_OPS - {"ListParts", "ListUploads", "PutObject"}),
+                   ALL4 + ["singlemem"], timeout=3000, **st)
+        tour_stage(rep, work, "mp-2k", "MC_Store",
+                   store_consts(Buckets={"bkt1"}, KeySetName="nest2", Bodies={"x1"}, PartBodies={"p1"}, MaxUploads=2,
+                                Ghosts=False, OpNames=MP_OPS - {"ListParts", "ListUploads"}),
+                   ALL4, small=True, timeout=3000, **st)
+    rep.assumptions += [
+        "a Complete request with an empty part list or a repeated part number is outside C06 (DESIGN 5.2)",
+        "the ETag a later GET shows for a multipart-completed object is followed, not required",
+        "when a part list is both out of order and names an unknown/stale part either refusal is admissible",
+    ]
+    return rep
+
+
+def c14(tier, seed, work):
+    rep = Report("C14", tier, seed)
+    thorough = tier == "thorough"
+    # single-page listings after every mutating step (audits list every upload's parts and every
+    # bucket's uploads with and without delimiter)
+    tour_stage(rep, work, "mp-lists", "MC_Store",
+               store_consts(Buckets={"bkt1"}, KeySetName="nest2", Bodies={"x1"}, PartBodies={"p1", "p2"},
+                            MaxUploads=2, MaxList=1, Ghosts=False, OpNames=MP_OPS - {"PutObject", "GetObject"}),
+               ["mem", "bolt"], small=True, invariants=["TypeOK"])
+    # ListParts paging: part numbers with gaps, every max-parts, markers the server returns
+    walk_stage(rep, work, "parts-walks", "MC_Store",
+               store_consts(Buckets={"bkt1"}, KeySetName="a", PartNums={1, 2, 5} if not thorough else {1, 2, 3, 5},
+                            PartBodies={"p1", "p2"}, MaxUploads=1, Ghosts=False,
+                            OpNames={"CreateBucket", "Initiate", "UploadPart"}),
+               ["mem"], "parts", emit=None, invariants=["EmitState"], maxextra=2)
+    # ListMultipartUploads paging: several keys sharing a prefix, several uploads per key
+    walk_stage(rep, work, "uploads-walks", "MC_Store",
+               store_consts(Buckets={"bkt1"}, KeySetName="nest", MaxUploads=4 if thorough else 3, Ghosts=False,
+                            OpNames={"CreateBucket", "Initiate", "Abort"}),
+               ["mem"], "uploads", emit=None, invariants=["EmitState"])
+    rep.assumptions += [
+        "ListMultipartUploads before any upload was initiated in the bucket is outside C14",
+        "arbitrary numeric part-number markers are single-page tours: parts above the marker exactly",
+    ]
+    return rep
+
+
+PLANS = {"C02": c02, "C05": c05, "C03": c03, "C04": c04, "C13": c13, "C06": c06, "C14": c14}
